@@ -18,6 +18,9 @@ pub enum Sc {
     /// A mesh that is queried, then changed in place (append / transform / clone) and queried
     /// again: every query must describe the mesh as it is at that moment.
     History { label: String, mesh: M, steps: Vec<Step> },
+    /// A large mesh given by its construction rule (kept out of the scenario file): a flat fan
+    /// of `a` faces around one centre vertex (`b` ignored), or a grid of `a` x `b` cells.
+    Big { kind: BigKind, a: usize, b: usize },
     Box { w: f64, h: f64, d: f64 },
     Cylinder { r: f64, h: f64, steps: usize },
     /// A small mesh living in a huge vertex buffer: explicit vertex `i` sits at buffer index
@@ -25,6 +28,47 @@ pub enum Sc {
     Sparse { label: String, mesh: M, ids: Vec<u32>, n_vertices: usize },
     Voxels { label: String, cells: Vec<[i32; 3]> },
     Chains { label: String, branching: bool, pairs: Vec<[u32; 2]> },
+}
+
+#[derive(Serialize, Deserialize, Clone, Copy, Debug, PartialEq)]
+pub enum BigKind {
+    Fan,
+    Grid,
+}
+
+pub fn big_mesh(kind: BigKind, a: usize, b: usize) -> M {
+    match kind {
+        BigKind::Fan => {
+            let n = a;
+            let mut v = Vec::with_capacity(n + 1);
+            v.push([0.0, 0.0, 0.0]);
+            for i in 0..n {
+                let t = i as f64 / n as f64 * std::f64::consts::TAU;
+                v.push([t.cos() * (1.0 + (i % 7) as f64 * 0.01), t.sin() * (1.0 + (i % 5) as f64 * 0.01), 0.0]);
+            }
+            let f = (0..n).map(|i| [0u32, 1 + i as u32, 1 + ((i + 1) % n) as u32]).collect();
+            M { v, f }
+        }
+        BigKind::Grid => {
+            let (nx, ny) = (a, b);
+            let mut v = Vec::with_capacity((nx + 1) * (ny + 1));
+            for j in 0..=ny {
+                for i in 0..=nx {
+                    v.push([i as f64, j as f64, ((i * 7 + j * 3) % 5) as f64 * 0.01]);
+                }
+            }
+            let id = |i: usize, j: usize| (j * (nx + 1) + i) as u32;
+            let mut f = Vec::with_capacity(nx * ny * 2);
+            for j in 0..ny {
+                for i in 0..nx {
+                    let (p, q, r, s) = (id(i, j), id(i + 1, j), id(i + 1, j + 1), id(i, j + 1));
+                    f.push([p, q, r]);
+                    f.push([p, r, s]);
+                }
+            }
+            M { v, f }
+        }
+    }
 }
 
 #[derive(Serialize, Deserialize, Clone, Debug)]
@@ -92,6 +136,7 @@ fn observe_mesh(sim: &Sim, mesh: &Mesh, primitive: bool) -> MeshObs {
     } else {
         OpResult::Done(Ok(Vec::new()))
     };
+    let t0 = std::time::Instant::now();
     let edges = sim.op("Mesh::calc_edges", b, || {
         mesh.calc_edges()
             .map(|e| EdgesObs {
@@ -102,12 +147,20 @@ fn observe_mesh(sim: &Sim, mesh: &Mesh, primitive: bool) -> MeshObs {
             })
             .map_err(|e| e.to_string())
     });
+    let t_edges = t0.elapsed().as_millis();
+    let t0 = std::time::Instant::now();
     let patches = sim.op("Mesh::get_patches", b, || mesh.get_patches());
+    let t_patches = t0.elapsed().as_millis();
+    let t0 = std::time::Instant::now();
     let bounds = sim.op("Mesh::get_patch_boundary_points", b, || {
         mesh.get_patch_boundary_points()
             .map(|ls| ls.iter().map(|l| l.iter().map(|p| [p.x, p.y, p.z]).collect()).collect())
             .map_err(|e| e.to_string())
     });
+    let t_bounds = t0.elapsed().as_millis();
+    if std::env::var("VERIF_SLOW").is_ok() {
+        eprintln!("observe_mesh timings ms: edges {:?} patches {:?} bounds {:?}", t_edges, t_patches, t_bounds);
+    }
     MeshObs { mesh: m, primitive, normals, edges, patches, bounds }
 }
 
@@ -889,6 +942,19 @@ impl Property for C12 {
     }
 
     fn generate(&self, rng: &mut Rng, tier: Tier) -> Sc {
+        // large inputs are rare (they cost a thousand ordinary runs each): block-sized effects at
+        // 2^16 sorted edges need more than 21,846 faces, long walks need long boundaries
+        let big_p = if tier == Tier::Quick { 0.00006 } else { 0.00002 };
+        if rng.chance(big_p) {
+            return if rng.chance(0.6) {
+                Sc::Big { kind: BigKind::Grid, a: 100 + rng.below(24), b: 108 + rng.below(10) }
+            } else if tier == Tier::Thorough && rng.chance(0.15) {
+                // a boundary walk of more than 2^20 edges
+                Sc::Big { kind: BigKind::Fan, a: (1 << 20) + 1 + rng.below(16), b: 0 }
+            } else {
+                Sc::Big { kind: BigKind::Fan, a: *rng.pick(&[65_535usize, 65_536, 65_537, 70_001, 30_000]), b: 0 }
+            };
+        }
         match rng.weighted(&[30, 30, 6, 6, 14, 14, 1, 6]) {
             6 => gen_sparse(rng),
             7 => gen_history(rng),
@@ -906,6 +972,7 @@ impl Property for C12 {
             Sc::Mesh { mesh, .. } => mesh.f.len() <= 20,
             Sc::Sparse { .. } => false,
             Sc::History { .. } => true,
+            Sc::Big { .. } => false,
             Sc::Box { .. } => true,
             Sc::Cylinder { steps, .. } => *steps <= 10,
             Sc::Voxels { cells, .. } => cells.len() <= 60,
@@ -923,6 +990,7 @@ impl Property for C12 {
             Sc::Chains { .. } => 1,
             Sc::Sparse { .. } => 2,
             Sc::History { .. } => 2 + rng.below(3),
+            Sc::Big { .. } => 2,
             Sc::Mesh { mesh, .. } if mesh.f.len() > 300 => 2,
             _ => match tier {
                 Tier::Quick => 4 + rng.below(5),
@@ -936,6 +1004,14 @@ impl Property for C12 {
             Sc::Mesh { mesh, .. } => {
                 let built = sim.op("Mesh::new", 1_000_000, || to_mesh(mesh));
                 match built {
+                    OpResult::Done(me) => Obs::Mesh(Box::new(observe_mesh(sim, &me, false))),
+                    OpResult::Panic(m) => Obs::Construct(m),
+                    OpResult::Budget(_) => Obs::Construct("budget".into()),
+                }
+            }
+            Sc::Big { kind, a, b } => {
+                let full = big_mesh(*kind, *a, *b);
+                match sim.op("Mesh::new", 1_000_000, || to_mesh(&full)) {
                     OpResult::Done(me) => Obs::Mesh(Box::new(observe_mesh(sim, &me, false))),
                     OpResult::Panic(m) => Obs::Construct(m),
                     OpResult::Budget(_) => Obs::Construct("budget".into()),
@@ -1009,9 +1085,15 @@ impl Property for C12 {
     fn judge(&self, sc: &Sc, runs: &[VectorRun<Obs>], stats: &mut Stats) -> Vec<Violation> {
         let mut out = Vec::new();
         match sc {
-            Sc::Mesh { .. } | Sc::Sparse { .. } | Sc::Box { .. } | Sc::Cylinder { .. } => {
+            Sc::Mesh { .. } | Sc::Sparse { .. } | Sc::Big { .. } | Sc::Box { .. } | Sc::Cylinder { .. } => {
                 if matches!(sc, Sc::Sparse { .. }) {
                     stats.bump("probe:vertex-index-above-65535");
+                }
+                if let Sc::Big { kind, a, b } = sc {
+                    stats.bump("probe:large-mesh");
+                    if big_mesh(*kind, *a, *b).f.len() * 3 > 65_536 {
+                        stats.bump("probe:more-than-65536-directed-edges");
+                    }
                 }
                 let mut canon: Vec<Option<String>> = Vec::new();
                 for (vi, r) in runs.iter().enumerate() {
@@ -1278,6 +1360,18 @@ impl Property for C12 {
                     out.push(Sc::Mesh { label: label.clone(), mesh: M { v: simple, f: mesh.f.clone() } });
                 }
             }
+            Sc::Big { kind, a, b } => {
+                // smaller instances of the same rule
+                for (na, nb) in [(a / 2, *b), (*a, b / 2), (a - 1, *b), (*a, b.saturating_sub(1))] {
+                    let ok = match kind {
+                        BigKind::Fan => na >= 3,
+                        BigKind::Grid => na >= 1 && nb >= 1,
+                    };
+                    if ok && (na, nb) != (*a, *b) {
+                        out.push(Sc::Big { kind: *kind, a: na, b: nb });
+                    }
+                }
+            }
             Sc::History { label, mesh, steps } => {
                 for s in chunk_removals(steps, 1) {
                     out.push(Sc::History { label: label.clone(), mesh: mesh.clone(), steps: s });
@@ -1366,6 +1460,10 @@ impl Property for C12 {
                     })
                     && history_stage(mesh, steps, steps.len()).has_distinct_positions()
             }
+            Sc::Big { kind, a, b } => match kind {
+                BigKind::Fan => *a >= 3,
+                BigKind::Grid => *a >= 1 && *b >= 1,
+            },
             Sc::Box { w, h, d } => *w > 0.0 && *h > 0.0 && *d > 0.0,
             Sc::Cylinder { r, h, steps } => *r > 0.0 && *h > 0.0 && *steps >= 3,
             Sc::Voxels { cells, .. } => !cells.is_empty(),
@@ -1389,6 +1487,7 @@ impl Property for C12 {
             }
             Sc::Sparse { .. } => fp.push("mesh:huge-vertex-buffer".into()),
             Sc::History { .. } => fp.push("mesh:query-change-query".into()),
+            Sc::Big { .. } => fp.push("mesh:large".into()),
             Sc::Box { .. } => fp.push("primitive:box".into()),
             Sc::Cylinder { .. } => fp.push("primitive:cylinder".into()),
             Sc::Voxels { .. } => fp.push("voxels".into()),
@@ -1403,6 +1502,7 @@ impl Property for C12 {
             Sc::Box { .. } | Sc::Cylinder { .. } => true,
             Sc::Sparse { mesh, .. } => mesh.f.len() >= 2,
             Sc::History { steps, .. } => !steps.is_empty(),
+            Sc::Big { .. } => true,
             Sc::Voxels { cells, .. } => cells.len() >= 2,
             Sc::Chains { pairs, .. } => pairs.len() >= 2,
         }
